@@ -3,7 +3,12 @@
 //
 //   drv_udp run <cases.txt> <out.ndjson> <parallel>
 //
-// case line:   cap=<n> et=<0|1> batch=<0|1> wq=<n> ; STEP ; STEP ; ...
+// case line:   cap=<n> et=<0|1> batch=<0|1> wq=<n> v6=<0|1> ; STEP ; STEP ; ...
+//   v6=0: listeners bind 127.0.0.1, peers p1 = 127.0.0.1:X, p2 = 127.0.0.2:X (same port)
+//   v6=1: listeners bind "::" (dual stack: the engine clears IPV6_V6ONLY); p1 / p2 are the same IPv4 sockets and reach the
+//         engine as ::ffff:127.0.0.1 / ::ffff:127.0.0.2 (numeric text of 16 characters), p3 = [::1]:Y; connect /
+//         connectViaListener are given the IPv6 text of the peer.  Without IPv6 in the sandbox the execution is the single
+//         event {"e":"NoIPv6"}.
 //   DG <peer> <lid> <z>        raw peer sends one datagram of size class z (s=1, m=1472, l=65507) to listener lid
 //   CDG <peer> <msid> <z>      raw peer sends one datagram to the socket of client session msid
 //   CONNECT <peer>             engine.connect(peer address)
@@ -13,8 +18,15 @@
 //   BLOCKL <lid> / UNBLOCKL <lid> / BLOCKC <msid> / UNBLOCKC <msid>   the kernel answers EAGAIN on that socket / stops doing so
 //   ADV                        the idle timeout passes (virtual CLOCK_MONOTONIC + 601 s)
 //   GC                         the GC timer fires now
-// msid = the n-th session created in this execution (accept callbacks and connect calls, in order) — the numbering of
-// the model.  Real session ids are what is logged.
+//   PARK                       the I/O thread is parked inside a callback (the close callback of a connectViaListener to a
+//                              listener id that does not exist - no session, no socket traffic)
+//   RAW <peer> <lid> <z> <n>   (while parked) the peer sends n datagrams to listener lid without waiting: they queue up in the socket
+//   RAWC <peer> <msid> <z> <n> (while parked) ... to the socket of client session msid
+//   RELEASE                    the callback returns; afterwards NO further traffic: wait (generously, bounded) until the engine
+//                              has read every queued datagram or makes no progress any more
+// msid names a session by how it came into being: a<n> = the n-th implicit accept, c<n> = the n-th connect /
+// connectViaListener call of this execution (a plain number n = the n-th session created, in real order).  Real
+// session ids are what is logged.
 //
 // The run is sequential: every step waits for quiescence (a synchronous in-band barrier command through the engine's
 // command queue, the bytesIn / gcRuns counters, and receipt of every datagram the kernel accepted) before the next.
@@ -46,12 +58,116 @@ static void unlockCall() { g_callLk.clear(std::memory_order_release); }
 static std::atomic<bool> g_logging{false};
 static std::atomic<long> g_monoOff{0};
 static std::atomic<int> g_timerFd{-1};
-static std::atomic<int> g_len[256];
+
+// an address in one normal form: 16 bytes (IPv4 as ::ffff:a.b.c.d) + port (network order)
+struct NAddr
+{
+  std::uint8_t a[16]{};
+  std::uint16_t port = 0;
+  bool operator==(const NAddr &o) const { return port == o.port && memcmp(a, o.a, 16) == 0; }
+  bool isAny() const
+  {
+    static const std::uint8_t z[16]{};
+    static const std::uint8_t m[16]{0, 0, 0, 0, 0, 0, 0, 0, 0, 0, 0xff, 0xff, 0, 0, 0, 0};
+    return memcmp(a, z, 16) == 0 || memcmp(a, m, 16) == 0;
+  }
+  bool isV4() const
+  {
+    static const std::uint8_t m[12]{0, 0, 0, 0, 0, 0, 0, 0, 0, 0, 0xff, 0xff};
+    return memcmp(a, m, 12) == 0;
+  }
+};
+static bool toN(const sockaddr *sa, NAddr &n)
+{
+  if (sa->sa_family == AF_INET)
+  {
+    auto *s4 = (const sockaddr_in *)sa;
+    memset(n.a, 0, 10);
+    n.a[10] = n.a[11] = 0xff;
+    memcpy(n.a + 12, &s4->sin_addr, 4);
+    n.port = s4->sin_port;
+    return true;
+  }
+  if (sa->sa_family == AF_INET6)
+  {
+    auto *s6 = (const sockaddr_in6 *)sa;
+    memcpy(n.a, &s6->sin6_addr, 16);
+    n.port = s6->sin6_port;
+    return true;
+  }
+  return false;
+}
+static bool textToN(const std::string &host, std::uint16_t portHost, NAddr &n)
+{
+  sockaddr_in s4{};
+  s4.sin_family = AF_INET;
+  s4.sin_port = htons(portHost);
+  if (inet_pton(AF_INET, host.c_str(), &s4.sin_addr) == 1) return toN((sockaddr *)&s4, n);
+  sockaddr_in6 s6{};
+  s6.sin6_family = AF_INET6;
+  s6.sin6_port = htons(portHost);
+  if (inet_pton(AF_INET6, host.c_str(), &s6.sin6_addr) == 1) return toN((sockaddr *)&s6, n);
+  return false;
+}
+
+// payload ids are 16 bit.  Datagrams of >= 3 bytes carry the id in bytes 0-1 and a pattern f(id, offset) behind it; a
+// shorter datagram carries id mod 256 only and is resolved against the ids of that length still outstanding at the
+// observation point (oldest first - a socket queue is FIFO), so a duplicate or foreign datagram is still named and the
+// oracle rejects it.
+static const int MAXID = 8192;
+static std::atomic<int> g_len[MAXID];
+static std::atomic<unsigned char> g_seen[MAXID]; // bit 0: data callback, bit 1: handed to the kernel, bit 2: read by a peer
+static std::atomic<int> g_maxId{0};
+enum Obs
+{
+  OBS_DATA = 1,
+  OBS_OUT = 2,
+  OBS_RECV = 4
+};
+static inline std::uint8_t pat(int id, size_t i) { return (std::uint8_t)(id * 131 + i * 7 + (i >> 8) * 13 + 1); }
+static void genPayload(int id, size_t n, std::vector<std::uint8_t> &b)
+{
+  b.resize(n);
+  for (size_t i = 0; i < n; ++i) b[i] = pat(id, i);
+  if (n) b[0] = (std::uint8_t)(id & 0xff);
+  if (n >= 3) b[1] = (std::uint8_t)(id >> 8);
+}
+static bool checkPayload(const std::uint8_t *b, size_t n, int &id, Obs obs)
+{
+  id = 0;
+  if (n == 0) return false;
+  if (n >= 3)
+  {
+    id = b[0] | (b[1] << 8);
+    if (id <= 0 || id >= MAXID || g_len[id].load() != (int)n) return false;
+    for (size_t i = 2; i < n; ++i)
+      if (b[i] != pat(id, i)) return false;
+    g_seen[id].fetch_or((unsigned char)obs);
+    return true;
+  }
+  int mx = g_maxId.load(), firstAny = 0;
+  for (int k = 1; k <= mx; ++k)
+  {
+    if ((k & 0xff) != b[0] || g_len[k].load() != (int)n) continue;
+    if (!firstAny) firstAny = k;
+    if (!(g_seen[k].load() & obs))
+    {
+      id = k;
+      break;
+    }
+  }
+  if (!id) id = firstAny ? firstAny : b[0];
+  if (id <= 0 || id >= MAXID || g_len[id].load() != (int)n) return false;
+  for (size_t i = 1; i < n; ++i)
+    if (b[i] != pat(id, i)) return false;
+  g_seen[id].fetch_or((unsigned char)obs);
+  return true;
+}
 
 struct SockCtl
 {
-  std::atomic<unsigned long long> key{0}; // (ipv4 addr << 16) | port, network order pieces
-  std::atomic<int> mode{0};               // 0 pass, 1 EAGAIN
+  NAddr key;                 // local address of the engine socket
+  std::atomic<int> mode{0};  // 0 pass, 1 EAGAIN
   std::atomic<int> errOnce{0};
   std::atomic<long> eagains{0};
   std::atomic<long> realCalls{0};
@@ -64,14 +180,14 @@ struct PeerInfo
 {
   std::string name;
   int fd = -1;
-  sockaddr_in addr{};
+  int family = AF_INET;
+  NAddr addr;
+  std::string engineHost; // the text the engine is given for this peer
   std::atomic<long> expect{0};
   long got = 0;
 };
-static PeerInfo g_peers[2];
+static PeerInfo g_peers[3];
 static int g_npeers = 2;
-
-static unsigned long long keyOf(const sockaddr_in &a) { return ((unsigned long long)a.sin_addr.s_addr << 16) | a.sin_port; }
 
 static SockCtl *lookupFd(int fd)
 {
@@ -79,16 +195,16 @@ static SockCtl *lookupFd(int fd)
   if (n == 0) return nullptr;
   sockaddr_storage ss{};
   socklen_t sl = sizeof ss;
-  if (::getsockname(fd, (sockaddr *)&ss, &sl) != 0 || ss.ss_family != AF_INET) return nullptr;
-  unsigned long long k = keyOf(*(sockaddr_in *)&ss);
+  NAddr k;
+  if (::getsockname(fd, (sockaddr *)&ss, &sl) != 0 || !toN((sockaddr *)&ss, k)) return nullptr;
   for (int i = 0; i < n; ++i)
-    if (g_socks[i].key.load() == k) return &g_socks[i];
+    if (g_socks[i].key.port == k.port && (g_socks[i].key == k || (g_socks[i].key.isAny() && k.isAny()))) return &g_socks[i];
   return nullptr;
 }
-static SockCtl *registerSock(const sockaddr_in &a, const std::string &name)
+static SockCtl *registerSock(const NAddr &a, const std::string &name)
 {
   int i = g_nsocks.load();
-  g_socks[i].key = keyOf(a);
+  g_socks[i].key = a;
   snprintf(g_socks[i].name, sizeof g_socks[i].name, "%s", name.c_str());
   g_nsocks.store(i + 1, std::memory_order_release);
   return &g_socks[i];
@@ -100,27 +216,11 @@ static SockCtl *sockByName(const std::string &name)
     if (name == g_socks[i].name) return &g_socks[i];
   return nullptr;
 }
-static int peerOfAddr(const sockaddr_in &a)
+static int peerOfN(const NAddr &a)
 {
   for (int i = 0; i < g_npeers; ++i)
-    if (g_peers[i].addr.sin_port == a.sin_port && g_peers[i].addr.sin_addr.s_addr == a.sin_addr.s_addr) return i;
+    if (g_peers[i].addr == a) return i;
   return -1;
-}
-
-// payload id: byte 0 is the id (1..255), every other byte a function of (id, offset)
-static void genPayload(int id, size_t n, std::vector<std::uint8_t> &b)
-{
-  b.resize(n);
-  for (size_t i = 0; i < n; ++i) b[i] = (std::uint8_t)(id * 131 + i * 7 + (i >> 8) * 13 + 1);
-  if (n) b[0] = (std::uint8_t)id;
-}
-static bool checkPayload(const std::uint8_t *b, size_t n, int &id)
-{
-  id = n ? b[0] : 0;
-  if (n == 0 || id == 0 || g_len[id].load() != (int)n) return false;
-  for (size_t i = 1; i < n; ++i)
-    if (b[i] != (std::uint8_t)(id * 131 + i * 7 + (i >> 8) * 13 + 1)) return false;
-  return true;
 }
 
 // ------------------------------------------------------------------------------------------------ interposition
@@ -153,25 +253,23 @@ static ssize_t engineSend(SockCtl *sc, int fd, const void *buf, size_t n, int fl
     errno = EAGAIN;
     return -1;
   }
-  sockaddr_in dst{};
+  NAddr dst;
   bool haveDst = false;
-  if (to && tl >= sizeof(sockaddr_in) && to->sa_family == AF_INET)
+  if (to)
+    haveDst = toN(to, dst);
+  else
   {
-    dst = *(const sockaddr_in *)to;
-    haveDst = true;
-  }
-  else if (!to)
-  {
-    socklen_t sl = sizeof dst;
-    haveDst = ::getpeername(fd, (sockaddr *)&dst, &sl) == 0;
+    sockaddr_storage ps{};
+    socklen_t sl = sizeof ps;
+    haveDst = ::getpeername(fd, (sockaddr *)&ps, &sl) == 0 && toN((sockaddr *)&ps, dst);
   }
   ssize_t r = to ? realSendto()(fd, buf, n, flags, to, tl) : realSend()(fd, buf, n, flags);
   sc->realCalls++;
   if (r >= 0)
   {
     int id = 0;
-    bool ok = checkPayload((const std::uint8_t *)buf, n, id) && (size_t)r == n;
-    int p = haveDst ? peerOfAddr(dst) : -1;
+    bool ok = checkPayload((const std::uint8_t *)buf, n, id, OBS_OUT) && (size_t)r == n;
+    int p = haveDst ? peerOfN(dst) : -1;
     lockCall();
     unlockCall();
     if (g_logging.load())
@@ -211,21 +309,51 @@ extern "C" int timerfd_create(int clockid, int flags)
 // ------------------------------------------------------------------------------------------------ one execution
 static size_t sizeOf(const std::string &z) { return z == "s" ? 1 : z == "m" ? 1472 : 65507; }
 
+// datagrams the kernel dropped on the socket bound to this port (receive queue overflow): /proc/net/udp{,6} column "drops"
+static long kernelDrops(std::uint16_t portHost)
+{
+  long drops = 0;
+  for (const char *path : {"/proc/net/udp", "/proc/net/udp6"})
+  {
+    FILE *f = fopen(path, "r");
+    if (!f) continue;
+    char line[512];
+    while (fgets(line, sizeof line, f))
+    {
+      // "sl local_address rem_address st tx:rx tr:when retrnsmt uid timeout inode ref pointer drops": the last token
+      std::vector<std::string> tok = vf::words(line);
+      if (tok.size() < 5 || tok[0] == "sl") continue;
+      size_t c = tok[1].rfind(':');
+      if (c == std::string::npos || strtol(tok[1].c_str() + c + 1, nullptr, 16) != portHost) continue;
+      drops += atol(tok.back().c_str());
+    }
+    fclose(f);
+  }
+  return drops;
+}
+
 struct Exec
 {
   std::unique_ptr<UdpEngine> eng;
-  std::vector<SessionId> msid;             // model session number -> real session id (creation order)
+  std::vector<SessionId> msid;             // real session ids in creation order
+  std::vector<SessionId> accSids, callSids; // ... of the implicit accepts / of the connect calls
   std::map<SessionId, std::string> sockOf; // real sid -> socket name ("L1" / "C<sid>")
-  std::map<SessionId, sockaddr_in> cliAddr;
+  std::map<SessionId, NAddr> cliAddr;
   std::map<SessionId, bool> closed;
-  vf::Ev *dummy = nullptr;
   std::atomic_flag lk = ATOMIC_FLAG_INIT;
   std::atomic<int> nConnect{0}, nClose{0};
   int curLid = 0; // listener the datagram in flight was sent to (for sockOf of an accepted session)
   std::map<int, ListenerId> lids;
-  std::map<int, sockaddr_in> laddr;
+  std::map<int, NAddr> laddr;
   int nextId = 1;
   bool infra = false;
+  bool v6 = false;
+  // parking the I/O thread inside a callback
+  std::atomic<SessionId> parkSid{0};
+  std::atomic<bool> parked{false}, gateOpen{true};
+  std::uint64_t parkBytesIn = 0;
+  long rawBytes = 0;
+  std::vector<std::uint16_t> rawPorts;
 
   void lock()
   {
@@ -237,11 +365,9 @@ struct Exec
 
   static std::string peerName(const TransportAddress &a)
   {
-    sockaddr_in sa{};
-    sa.sin_family = AF_INET;
-    sa.sin_port = htons(a.port);
-    inet_pton(AF_INET, a.host.c_str(), &sa.sin_addr);
-    int p = peerOfAddr(sa);
+    NAddr n;
+    if (!textToN(a.host, a.port, n)) return "?";
+    int p = peerOfN(n);
     return p >= 0 ? g_peers[p].name : "?";
   }
 
@@ -264,6 +390,37 @@ struct Exec
     return true;
   }
 
+  // send one datagram from peer i's socket to an engine socket
+  bool peerSendTo(int i, const NAddr &dst, const std::uint8_t *p, size_t n)
+  {
+    ssize_t r;
+    if (g_peers[i].family == AF_INET)
+    {
+      sockaddr_in s4{};
+      s4.sin_family = AF_INET;
+      s4.sin_port = dst.port;
+      if (dst.isAny())
+        s4.sin_addr.s_addr = inet_addr("127.0.0.1");
+      else if (dst.isV4())
+        memcpy(&s4.sin_addr, dst.a + 12, 4);
+      else
+        return false;
+      r = realSendto()(g_peers[i].fd, p, n, 0, (sockaddr *)&s4, sizeof s4);
+    }
+    else
+    {
+      sockaddr_in6 s6{};
+      s6.sin6_family = AF_INET6;
+      s6.sin6_port = dst.port;
+      if (dst.isAny())
+        inet_pton(AF_INET6, "::1", &s6.sin6_addr);
+      else
+        memcpy(&s6.sin6_addr, dst.a, 16);
+      r = realSendto()(g_peers[i].fd, p, n, 0, (sockaddr *)&s6, sizeof s6);
+    }
+    return r == (ssize_t)n;
+  }
+
   void drainPeers(bool wait)
   {
     double t0 = vf::nowSec();
@@ -275,12 +432,10 @@ struct Exec
       {
         for (;;)
         {
-          sockaddr_in from{};
-          socklen_t fl = sizeof from;
-          ssize_t n = ::recvfrom(g_peers[i].fd, buf.data(), buf.size(), MSG_DONTWAIT, (sockaddr *)&from, &fl);
+          ssize_t n = ::recvfrom(g_peers[i].fd, buf.data(), buf.size(), MSG_DONTWAIT, nullptr, nullptr);
           if (n < 0) break;
           int id = 0;
-          bool ok = checkPayload(buf.data(), (size_t)n, id);
+          bool ok = checkPayload(buf.data(), (size_t)n, id, OBS_RECV);
           g_peers[i].got++;
           g_trace.add(vf::Ev("PeerRecv").str("p", g_peers[i].name).i("id", id).i("len", (long)n).b("ok", ok));
         }
@@ -298,9 +453,16 @@ struct Exec
 
   SessionId realSid(const std::string &tok)
   {
-    int k = atoi(tok.c_str());
+    const std::vector<SessionId> *v = &msid;
+    const char *num = tok.c_str();
+    if (tok[0] == 'a' || tok[0] == 'c')
+    {
+      v = tok[0] == 'a' ? &accSids : &callSids;
+      ++num;
+    }
+    int k = atoi(num);
     lock();
-    SessionId r = (k >= 1 && k <= (int)msid.size()) ? msid[k - 1] : 0;
+    SessionId r = (k >= 1 && k <= (int)v->size()) ? (*v)[k - 1] : 0;
     unlock();
     return r;
   }
@@ -323,12 +485,103 @@ struct Exec
     barrier();
   }
 
+  int newId(size_t n)
+  {
+    int id = nextId++;
+    if (id >= MAXID) return -1;
+    g_len[id] = (int)n;
+    g_maxId = id;
+    return id;
+  }
+
+  bool setupPeers()
+  {
+    g_npeers = v6 ? 3 : 2;
+    const char *v4host[2] = {"127.0.0.1", "127.0.0.2"};
+    for (int i = 0; i < 2; ++i)
+    {
+      g_peers[i].name = "p" + std::to_string(i + 1);
+      g_peers[i].family = AF_INET;
+      g_peers[i].fd = ::socket(AF_INET, SOCK_DGRAM, 0);
+      sockaddr_in a{};
+      a.sin_family = AF_INET;
+      a.sin_addr.s_addr = inet_addr(v4host[i]);
+      a.sin_port = i == 0 ? 0 : g_peers[0].addr.port; // same port, different address when possible
+      if (::bind(g_peers[i].fd, (sockaddr *)&a, sizeof a) != 0)
+      {
+        a.sin_port = 0;
+        if (::bind(g_peers[i].fd, (sockaddr *)&a, sizeof a) != 0) return false;
+      }
+      socklen_t sl = sizeof a;
+      ::getsockname(g_peers[i].fd, (sockaddr *)&a, &sl);
+      toN((sockaddr *)&a, g_peers[i].addr);
+      g_peers[i].engineHost = v6 ? std::string("::ffff:") + v4host[i] : std::string(v4host[i]);
+    }
+    if (v6)
+    {
+      g_peers[2].name = "p3";
+      g_peers[2].family = AF_INET6;
+      g_peers[2].fd = ::socket(AF_INET6, SOCK_DGRAM, 0);
+      sockaddr_in6 a{};
+      a.sin6_family = AF_INET6;
+      inet_pton(AF_INET6, "::1", &a.sin6_addr);
+      if (g_peers[2].fd < 0 || ::bind(g_peers[2].fd, (sockaddr *)&a, sizeof a) != 0) return false;
+      socklen_t sl = sizeof a;
+      ::getsockname(g_peers[2].fd, (sockaddr *)&a, &sl);
+      toN((sockaddr *)&a, g_peers[2].addr);
+      g_peers[2].engineHost = "::1";
+    }
+    for (int i = 0; i < g_npeers; ++i)
+    {
+      int rb = 4 << 20;
+      ::setsockopt(g_peers[i].fd, SOL_SOCKET, SO_RCVBUF, &rb, sizeof rb);
+    }
+    return true;
+  }
+
+  void release()
+  {
+    if (!parked.load() && gateOpen.load()) return;
+    gateOpen = true;
+    waitUntil([&] { return !parked.load(); }, 5.0);
+    // no further traffic from here on: the engine must read everything that is queued on its own
+    std::uint64_t want = parkBytesIn + (std::uint64_t)rawBytes;
+    std::uint64_t seen = eng->getStats().bytesIn;
+    double last = vf::nowSec();
+    while (seen < want)
+    {
+      usleep(300);
+      std::uint64_t cur = eng->getStats().bytesIn;
+      if (cur != seen)
+      {
+        seen = cur;
+        last = vf::nowSec();
+      }
+      else if (vf::nowSec() - last > 3.0)
+        break; // the engine stopped reading although datagrams are queued: left to the oracle (Settled with datagrams in flight)
+    }
+    if (seen < want)
+    {
+      long drops = 0;
+      for (auto p : rawPorts) drops += kernelDrops(p);
+      if (drops > 0)
+      {
+        infraEv("the kernel dropped datagrams of the burst (socket receive buffer overflow)");
+        return;
+      }
+    }
+    rawBytes = 0;
+    rawPorts.clear();
+    barrier();
+  }
+
   std::string run(const std::string &line)
   {
     auto parts = vf::split(line, ';');
     TransportConfig cfg;
     cfg.protocol = Protocol::UDP;
     cfg.gcInterval = std::chrono::seconds(86400); // the GC timer fires only when the behaviour says so
+    cfg.soRcvBuf = 4 << 20;                       // room for a burst of several hundred datagrams in one socket queue
     long cap = 0;
     for (auto &w : vf::words(parts[0]))
     {
@@ -339,33 +592,16 @@ struct Exec
       if (kv[0] == "et") cfg.useEdgeTriggered = v != 0;
       if (kv[0] == "batch") cfg.batching.enabled = v != 0;
       if (kv[0] == "wq") cfg.maxWriteQueue = (std::size_t)v;
+      if (kv[0] == "v6") v6 = v != 0;
     }
-    // raw peers: p1 = 127.0.0.1:X, p2 = 127.0.0.2:X (same port, different address) when possible
-    for (int i = 0; i < g_npeers; ++i)
-    {
-      g_peers[i].name = "p" + std::to_string(i + 1);
-      g_peers[i].fd = ::socket(AF_INET, SOCK_DGRAM, 0);
-      sockaddr_in a{};
-      a.sin_family = AF_INET;
-      a.sin_addr.s_addr = inet_addr(i == 0 ? "127.0.0.1" : "127.0.0.2");
-      a.sin_port = i == 0 ? 0 : g_peers[0].addr.sin_port;
-      if (::bind(g_peers[i].fd, (sockaddr *)&a, sizeof a) != 0)
-      {
-        a.sin_port = 0;
-        if (::bind(g_peers[i].fd, (sockaddr *)&a, sizeof a) != 0) return "{\"e\":\"Infra\",\"why\":\"peer bind\"}\n";
-      }
-      socklen_t sl = sizeof a;
-      ::getsockname(g_peers[i].fd, (sockaddr *)&a, &sl);
-      g_peers[i].addr = a;
-      int rb = 4 << 20;
-      ::setsockopt(g_peers[i].fd, SOL_SOCKET, SO_RCVBUF, &rb, sizeof rb);
-    }
+    if (!setupPeers()) return v6 ? "{\"e\":\"NoIPv6\"}\n" : "{\"e\":\"Infra\",\"why\":\"peer bind\"}\n";
     eng = std::make_unique<UdpEngine>(cfg);
     detail::EngineBase::Callbacks cbs{};
     cbs.onAccept = [this](SessionId sid, const TransportAddress &a)
     {
       lock();
       msid.push_back(sid);
+      accSids.push_back(sid);
       sockOf[sid] = "L" + std::to_string(curLid);
       unlock();
       if (g_logging.load()) g_trace.add(vf::Ev("Accept").i("sid", (long)sid).str("p", peerName(a)));
@@ -380,11 +616,21 @@ struct Exec
     cbs.onData = [](SessionId sid, iora::core::BufferView d, std::chrono::steady_clock::time_point)
     {
       int id = 0;
-      bool ok = checkPayload((const std::uint8_t *)d.data(), d.size(), id);
+      bool ok = checkPayload((const std::uint8_t *)d.data(), d.size(), id, OBS_DATA);
       if (g_logging.load()) g_trace.add(vf::Ev("Data").i("sid", (long)sid).i("id", id).i("len", (long)d.size()).b("ok", ok));
     };
     cbs.onClose = [this](SessionId sid, const TransportErrorInfo &)
     {
+      lockCall(); // (the driver holds this while a connect call is in flight: its result - e.g. parkSid - is set when we get it)
+      unlockCall();
+      if (sid == parkSid.load() && sid != 0)
+      {
+        // the I/O thread stays here until the driver opens the gate
+        parked = true;
+        while (!gateOpen.load()) usleep(100);
+        parked = false;
+        return;
+      }
       lock();
       closed[sid] = true;
       unlock();
@@ -398,33 +644,46 @@ struct Exec
     if (!eng->start().isOk()) return "{\"e\":\"Infra\",\"why\":\"engine start\"}\n";
     for (int l = 1; l <= 2; ++l)
     {
-      auto lr = eng->addListener("127.0.0.1", 0, TlsMode::None);
-      if (!lr.isOk()) return "{\"e\":\"Infra\",\"why\":\"addListener\"}\n";
+      auto lr = eng->addListener(v6 ? "::" : "127.0.0.1", 0, TlsMode::None);
+      if (!lr.isOk()) return v6 ? "{\"e\":\"NoIPv6\"}\n" : "{\"e\":\"Infra\",\"why\":\"addListener\"}\n";
       lids[l] = lr.value();
       auto la = eng->getListenerAddress(lr.value());
-      sockaddr_in a{};
-      a.sin_family = AF_INET;
-      a.sin_port = htons(la.port);
-      a.sin_addr.s_addr = inet_addr("127.0.0.1");
+      NAddr a;
+      if (!textToN(la.host, la.port, a)) return "{\"e\":\"Infra\",\"why\":\"listener address\"}\n";
       laddr[l] = a;
       registerSock(a, "L" + std::to_string(l));
     }
     g_logging = true;
-    g_trace.add(vf::Ev("Begin").i("cap", cap).i("et", cfg.useEdgeTriggered).i("batch", cfg.batching.enabled).i("wq", (long)cfg.maxWriteQueue));
+    g_trace.add(vf::Ev("Begin").i("cap", cap).i("et", cfg.useEdgeTriggered).i("batch", cfg.batching.enabled).i("wq", (long)cfg.maxWriteQueue).i("v6", v6));
 
     for (size_t si = 1; si < parts.size() && !infra; ++si)
     {
       auto w = vf::words(parts[si]);
       if (w.empty()) continue;
       const std::string &op = w[0];
-      if (op == "DG" || op == "CDG")
+      bool isRaw = op == "RAW" || op == "RAWC";
+      if (!gateOpen.load() && !isRaw)
+      {
+        release(); // any other step needs a running I/O thread
+        if (infra) break;
+        drainPeers(true);
+        g_trace.add(vf::Ev("Settled"));
+        if (op == "RELEASE") continue;
+      }
+      if (op == "RELEASE") continue;
+      if (op == "DG" || op == "CDG" || isRaw)
       {
         int p = atoi(w[1].c_str() + 1) - 1;
+        if (p < 0 || p >= g_npeers)
+        {
+          g_trace.add(vf::Ev("Skip").str("step", parts[si]));
+          continue;
+        }
         size_t n = sizeOf(w[3]);
-        sockaddr_in dst{};
+        NAddr dst;
         int lid = 0;
         SessionId csid = 0;
-        if (op == "DG")
+        if (op == "DG" || op == "RAW")
         {
           lid = atoi(w[2].c_str());
           dst = laddr[lid];
@@ -440,17 +699,32 @@ struct Exec
           }
           dst = cliAddr[csid];
         }
-        int id = nextId++;
-        g_len[id] = (int)n;
-        std::vector<std::uint8_t> b;
-        genPayload(id, n, b);
-        auto before = eng->getStats().bytesIn;
-        g_trace.add(vf::Ev("PeerSend").str("p", g_peers[p].name).i("lid", lid).i("csid", (long)csid).i("id", id).i("len", (long)n));
-        ssize_t r = realSendto()(g_peers[p].fd, b.data(), n, 0, (sockaddr *)&dst, sizeof dst);
-        if (r != (ssize_t)n)
+        int count = isRaw ? atoi(w[4].c_str()) : 1;
+        if (isRaw && gateOpen.load())
         {
-          infraEv("raw peer sendto failed");
-          break;
+          g_trace.add(vf::Ev("Skip").str("step", parts[si]));
+          continue;
+        }
+        auto before = eng->getStats().bytesIn;
+        std::vector<std::uint8_t> b;
+        for (int k = 0; k < count && !infra; ++k)
+        {
+          int id = newId(n);
+          if (id < 0)
+          {
+            infraEv("out of payload ids");
+            break;
+          }
+          genPayload(id, n, b);
+          g_trace.add(vf::Ev("PeerSend").str("p", g_peers[p].name).i("lid", lid).i("csid", (long)csid).i("id", id).i("len", (long)n));
+          if (!peerSendTo(p, dst, b.data(), n)) infraEv("raw peer sendto failed");
+          rawBytes += isRaw ? (long)n : 0;
+        }
+        if (infra) break;
+        if (isRaw)
+        {
+          rawPorts.push_back(ntohs(dst.port));
+          continue; // no waiting: the datagrams queue up behind the parked I/O thread
         }
         if (!waitUntil([&] { return eng->getStats().bytesIn != before; }, 5.0))
         {
@@ -459,14 +733,34 @@ struct Exec
         }
         barrier();
       }
+      else if (op == "PARK")
+      {
+        gateOpen = false;
+        parkBytesIn = eng->getStats().bytesIn;
+        rawBytes = 0;
+        lockCall();
+        auto cr = eng->connectViaListener((ListenerId)999999, g_peers[0].engineHost, ntohs(g_peers[0].addr.port));
+        if (cr.isOk()) parkSid = cr.value();
+        unlockCall();
+        if (!cr.isOk() || !waitUntil([&] { return parked.load(); }, 5.0))
+        {
+          gateOpen = true;
+          infraEv("could not park the I/O thread");
+          break;
+        }
+        continue; // (no Settled: nothing can settle while the I/O thread is parked)
+      }
       else if (op == "CONNECT" || op == "VIA")
       {
         int p = atoi((op == "CONNECT" ? w[1] : w[2]).c_str() + 1) - 1;
-        char host[32];
-        inet_ntop(AF_INET, &g_peers[p].addr.sin_addr, host, sizeof host);
+        if (p < 0 || p >= g_npeers)
+        {
+          g_trace.add(vf::Ev("Skip").str("step", parts[si]));
+          continue;
+        }
         lockCall();
-        ConnectResult cr = op == "CONNECT" ? eng->connect(host, ntohs(g_peers[p].addr.sin_port), TlsMode::None)
-                                           : eng->connectViaListener(lids[atoi(w[1].c_str())], host, ntohs(g_peers[p].addr.sin_port));
+        ConnectResult cr = op == "CONNECT" ? eng->connect(g_peers[p].engineHost, ntohs(g_peers[p].addr.port), TlsMode::None)
+                                           : eng->connectViaListener(lids[atoi(w[1].c_str())], g_peers[p].engineHost, ntohs(g_peers[p].addr.port));
         if (!cr.isOk())
         {
           unlockCall();
@@ -476,6 +770,7 @@ struct Exec
         SessionId sid = cr.value();
         lock();
         msid.push_back(sid);
+        callSids.push_back(sid);
         sockOf[sid] = op == "CONNECT" ? "C" + std::to_string(sid) : "L" + w[1];
         unlock();
         g_trace.add(vf::Ev("ConnCall").i("sid", (long)sid).str("p", g_peers[p].name));
@@ -484,12 +779,12 @@ struct Exec
         if (op == "CONNECT" && !isClosed(sid))
         {
           auto la = eng->getLocalAddress(sid);
-          sockaddr_in a{};
-          a.sin_family = AF_INET;
-          a.sin_port = htons(la.port);
-          inet_pton(AF_INET, la.host.c_str(), &a.sin_addr);
-          cliAddr[sid] = a;
-          registerSock(a, "C" + std::to_string(sid));
+          NAddr a;
+          if (textToN(la.host, la.port, a))
+          {
+            cliAddr[sid] = a;
+            registerSock(a, "C" + std::to_string(sid));
+          }
         }
       }
       else if (op == "SEND" || op == "SENDERR")
@@ -501,8 +796,12 @@ struct Exec
           continue;
         }
         size_t n = sizeOf(w[2]);
-        int id = nextId++;
-        g_len[id] = (int)n;
+        int id = newId(n);
+        if (id < 0)
+        {
+          infraEv("out of payload ids");
+          break;
+        }
         std::vector<std::uint8_t> b;
         genPayload(id, n, b);
         SockCtl *sc = nullptr;
@@ -579,6 +878,16 @@ struct Exec
       drainPeers(true);
       g_trace.add(vf::Ev("Settled"));
     }
+    if (!infra && !gateOpen.load())
+    {
+      release();
+      if (!infra)
+      {
+        drainPeers(true);
+        g_trace.add(vf::Ev("Settled"));
+      }
+    }
+    gateOpen = true;
     if (!infra)
     {
       // let every queued datagram go out, then stop observing
